@@ -15,9 +15,44 @@ let rec expand buf (p : bdd) : unit =
     expand buf (if c then neg hi else hi);
     Buffer.add_char buf ')'
 
+let table_hex (p : bdd) (nv : int) : string =
+  let buf = Buffer.create 64 in
+  let n = 1 lsl nv in
+  let a = ref 0 in
+  while !a < n do
+    let d = ref 0 in
+    for i = 0 to 3 do
+      if !a + i < n then begin
+        let asg = !a + i in
+        if den p (fun v -> (asg lsr (int_of_n v)) land 1 = 1) then d := !d lor (1 lsl i)
+      end
+    done;
+    Buffer.add_string buf (Printf.sprintf "%x" !d);
+    a := !a + 4
+  done;
+  Buffer.contents buf
+
 let () =
   List.iter (fun line ->
     match split_ws line with
+    | id :: "F" :: _ok :: nv :: rest ->
+      (* the CNF pipeline: the model compiles the clauses under the linear order; only the function is compared *)
+      let nv = ios nv in
+      (match rest with
+       | ncl :: r ->
+         let rec clauses k r acc = if k = 0 then List.rev acc else
+           (match r with
+            | len :: r ->
+              let (lits, r) = take (2 * ios len) r in
+              let rec pairs = function v :: b :: t -> (n_of_int (ios v), bool_of_tok b) :: pairs t | _ -> [] in
+              clauses (k - 1) r (pairs lits :: acc)
+            | [] -> failwith "bad cnf") in
+         let cnf = clauses (ios ncl) r [] in
+         let order = List.init nv nat_of_int in
+         (match compile_e (level_of order) all_remembered (nat_of_int (nv + 1)) (cnf_expr cnf) cst_empty with
+          | Some (r, _) -> print_endline (id ^ " " ^ table_hex r nv)
+          | None -> print_endline (id ^ " NONE"))
+       | [] -> print_endline (id ^ " NONE"))
     | id :: toks ->
       let (order, ops, rest) = parse_prog toks in
       (match rest, run_prog all_remembered (bstate_init order) ops with
